@@ -402,13 +402,24 @@ class _G:
     return src
 
 
+def _with_tabs(src):
+  """In ~1 source of 6 (decided by the text, not by the generator's random stream): two module variables whose
+  string / bytes literal holds a literal TAB character, and a multi-line string with TAB-led continuation lines
+  (seed C20-f: the source was passed through expandtabs before parsing)."""
+  import zlib
+  if zlib.crc32(src.encode()) % 6:
+    return src
+  extra = 'TABBED_S = "a\tb"\nTABBED_B = b"x\ty"\nTABBED_DOC = """first\n\tsecond\n\t\tthird"""\n'
+  return src + ("" if src.endswith("\n") else "\n") + extra
+
+
 def generate(rng: random.Random) -> str:
   """A compilable program (re-drawn until `compile` accepts it)."""
   for _ in range(20):
     src = _G(rng).build()
     try:
       compile(src, "<gen>", "exec", dont_inherit=True)
-      return src
+      return _with_tabs(src)
     except (SyntaxError, ValueError):
       continue
   return "x = 1\ndef f(a, b=2):\n    return a\n"
